@@ -552,18 +552,39 @@ pub fn rand_op(rng: &mut Rng, c: u64, r: u64, next_id: &mut u32, honest_only: bo
     }
 }
 
-/// a random history; the generator follows the shape by running the real array itself
+/// The dimensions the array has after `op` according to the plain rows-of-cells reading of
+/// the API.  The generator uses it only to choose mostly-valid arguments; it deliberately
+/// does not run the crate under test (a broken crate must not be able to stall or steer the
+/// generator).  After a faulting call the dimensions are taken as unchanged.
+fn shadow_dims(op: &Op, (c, r): (u64, u64)) -> (u64, u64) {
+    let honest = |s: &Script| s.panic_at.is_none() && s.claimed == s.items.len() as u64;
+    let zero_ok = |a: u64, b: u64| (a == 0) == (b == 0);
+    match op {
+        Op::FromVec(a, b, d) => if zero_ok(*a, *b) && a.checked_mul(*b) == Some(d.len() as u64) { (*a, *b) } else { (c, r) },
+        Op::New(a, b) | Op::Init(a, b, _) => if zero_ok(*a, *b) && a.checked_mul(*b).map_or(false, |p| p <= 4096) { (*a, *b) } else { (c, r) },
+        Op::Default | Op::Clear | Op::DropArr | Op::IntoIter(_) => (0, 0),
+        Op::InsertRow(i, s) => if honest(s) && *i <= r && (r == 0 || s.items.len() as u64 == c) && !s.items.is_empty() { (s.items.len() as u64, r + 1) } else { (c, r) },
+        Op::PushRow(s) => if honest(s) && (r == 0 || s.items.len() as u64 == c) && !s.items.is_empty() { (s.items.len() as u64, r + 1) } else { (c, r) },
+        Op::InsertCol(i, s) => if honest(s) && *i <= c && (c == 0 || s.items.len() as u64 == r) && !s.items.is_empty() { (c + 1, s.items.len() as u64) } else { (c, r) },
+        Op::PushCol(s) => if honest(s) && (c == 0 || s.items.len() as u64 == r) && !s.items.is_empty() { (c + 1, s.items.len() as u64) } else { (c, r) },
+        Op::RemoveRow(i, _, _) => if *i < r { if r == 1 { (0, 0) } else { (c, r - 1) } } else { (c, r) },
+        Op::PopRow(_, _) => if r == 0 { (c, r) } else if r == 1 { (0, 0) } else { (c, r - 1) },
+        Op::RemoveCol(i, _, f) => if *i < c { if *f == DEnd::Forget || c == 1 { (0, 0) } else { (c - 1, r) } } else { (c, r) },
+        Op::PopCol(_, f) => if c == 0 { (c, r) } else if *f == DEnd::Forget || c == 1 { (0, 0) } else { (c - 1, r) },
+        Op::SwapDims => (r, c),
+        Op::Bomb(_, o) => shadow_dims(o, (c, r)),
+        _ => (c, r),
+    }
+}
+
+/// a random history
 pub fn rand_history(rng: &mut Rng, len: usize, honest_only: bool, allow_forget: bool) -> Vec<Op> {
-    // The shape the generator aims at is only a heuristic for choosing mostly-valid
-    // arguments; it is tracked with a cheap simulation (u32 elements).
     let mut ops: Vec<Op> = vec![];
-    let mut t: TooDee<u32> = TooDee::default();
+    let mut dims = (0u64, 0u64);
     let mut next_id = 1u32;
     for _ in 0..len {
-        let (c, r) = t.size();
-        let op = rand_op(rng, c as u64, r as u64, &mut next_id, honest_only, allow_forget);
-        let mut ret = vec![];
-        let _ = catch_unwind(AssertUnwindSafe(|| apply(&mut t, &op, &mut ret)));
+        let op = rand_op(rng, dims.0, dims.1, &mut next_id, honest_only, allow_forget);
+        dims = shadow_dims(&op, dims);
         ops.push(op);
     }
     ops
